@@ -35,7 +35,7 @@
 From Coq Require Import ZArith List Bool.
 From CanVerif Require Import Socketcan.Wire Socketcan.WireSpec Socketcan.Receiver Socketcan.ReceiverSpec
   Socketcan.ReceiverProofs Socketcan.Transmitter Socketcan.TransmitterProofs
-  Socketcan.Process Socketcan.ProcessProofs.
+  Socketcan.Process Socketcan.ProcessProofs Socketcan.ScanBuffer Socketcan.ScanBufferProofs.
 Import ListNotations.
 Open Scope Z_scope.
 
@@ -216,6 +216,30 @@ Theorem C07_transmitter_in_process : forall ops i icpt calls,
   addressed_to i (transmitters_run ops) = map (see_tx icpt) (transmit_all calls).
 Proof. exact transmitter_in_process. Qed.
 Print Assumptions C07_transmitter_in_process.
+
+(** PACKET connections (the package's UDP transport: one datagram per Read, what does not fit the slice
+    offered to Read is discarded). Socketcan/ScanBuffer.v models the geometry of bufio.Scanner's buffer
+    that Receiver.v abstracts: [gstart, gend, glen] = s.start, s.end, len(s.buf); [prepare] = shift/grow
+    before a Read; [offered g] = glen g - gend g = len of the slice handed to Read; [after_read g n] = n
+    bytes arrived and every whole frame was handed out; [geom_inv g] = g is the empty initial buffer or
+    len 4096 with fewer than 16 bytes pending. The buffer never grows beyond 4096 bytes and EVERY Read
+    is offered at least 2033 bytes: a datagram of up to 127 frames is never truncated, so the stream
+    theorems above apply to the concatenation of the datagrams. *)
+Theorem C07_scan_offers_room : forall g, geom_inv g ->
+  exists g', prepare g = Some g' /\ glen g' = 4096 /\
+             gend g' - gstart g' = gend g - gstart g /\
+             2033 <= offered g' /\
+             forall n, 0 <= n <= offered g' -> geom_inv (after_read g' n).
+Proof. exact scan_offers_room. Qed.
+Print Assumptions C07_scan_offers_room.
+
+(** along any sequence of Reads starting from a new Scanner ([run_reads geom0 ns]: the i-th Read
+    returns [nth i ns] bytes, at most what it was offered) the next Read is offered >= 2033 bytes *)
+Theorem C07_every_read_is_offered_room : forall ns g1,
+  run_reads geom0 ns = Some g1 ->
+  exists g', prepare g1 = Some g' /\ glen g' = 4096 /\ 2033 <= offered g'.
+Proof. exact every_read_is_offered_room. Qed.
+Print Assumptions C07_every_read_is_offered_room.
 
 (** non-vacuity: 37 bytes (2 frames + 5 trailing) served as 1 + 0 + 20 + 16 bytes, and the same
     with an error arriving together with the last 16 bytes *)
